@@ -37,6 +37,18 @@ Definition api_step (l : list Z) : list Z :=
   | [5; threads; v] =>
       (* thread_pool(threads).run(waiter) then run(setter): the waiter suspends on a future the setter resolves; result v+1, body once *)
       if (1 <=? threads) && (threads <=? 3) then [0; v + 1; 1] else [1]
+  | [6; susp; v] =>
+      (* self-owned operation: the coroutine frame (a shared_ptr argument) is the only owner of the state holding the future it was
+         started on with start(promise); a callback awaiter is subscribed: it is called once and reads v (resolve before destroy) *)
+      if (0 <=? susp) && (susp <=? 1) then [0; v; 1] else [1]
+  | [7; mode; susp; v] =>
+      (* result type whose constructor throws for v < 0 while `co_return v` builds it inside the bound future: the bound party
+         receives that exception (1000 + |v|), in every start mode 0 join | 1 start() | 2 start(promise) | 3 future ctor | 4 co_await *)
+      if (0 <=? mode) && (mode <=? 4) && (0 <=? susp) && (susp <=? 1) then [0; (if v <? 0 then 1000 - v else v)] else [1]
+  | [8; mode; kind; code] =>
+      (* the body ends with an exception derived from await_canceled_exception (kind 0: 3000 + code) or with await_canceled_exception
+         itself from an unhandled co_await on a dropped promise (kind 1: 2000 = the future HOLDS that exception) *)
+      if (0 <=? mode) && (mode <=? 4) && (0 <=? kind) && (kind <=? 1) then [0; (if kind =? 0 then 3000 + code else 2000)] else [1]
   | _ => [1]
   end.
 
@@ -51,6 +63,9 @@ Definition api_ok (op o : list Z) : bool :=
   | [3; depth], [0; r; levels] => (r =? depth) && (levels =? depth + 1)
   | [4; _; thr; v], [0; r; after] => (r =? (if thr =? 1 then 1000 + v else 0)) && (after =? 1)
   | [5; _; v], [0; r; ran] => (r =? v + 1) && (ran =? 1)
+  | [6; _; v], [0; seen; calls] => (seen =? v) && (calls =? 1)
+  | [7; _; _; v], [0; r] => r =? (if v <? 0 then 1000 - v else v)
+  | [8; _; kind; code], [0; r] => r =? (if kind =? 0 then 3000 + code else 2000)
   | _, [1] => true
   | _, _ => false
   end.
